@@ -173,3 +173,32 @@ def count_tests(pd):
     def cs(s):
         return len(s["tests"]) + sum(cs(x) for x in s["subs"])
     return sum(cs(s) for s in pd["suites"])
+
+
+def filter_project(pd, exclude):
+    """The scheduled part of a project when the tests whose path is in `exclude` are filtered out (testtree.filter_suites:
+    hierarchy and order kept, suites left empty dropped)."""
+    import copy
+
+    def go(s, prefix):
+        path = prefix + s["name"]
+        s2 = dict(s)
+        s2["tests"] = [t for t in s["tests"] if path + "." + t["name"] not in exclude]
+        s2["subs"] = [x for x in (go(sub, path + ".") for sub in s["subs"]) if x is not None]
+        if not s2["tests"] and not s2["subs"]:
+            return None
+        return s2
+    return {"fixtures": pd["fixtures"], "suites": [x for x in (go(copy.deepcopy(s), "") for s in pd["suites"]) if x is not None]}
+
+
+def all_test_paths(pd):
+    out = []
+
+    def go(s, prefix):
+        path = prefix + s["name"]
+        out.extend(path + "." + t["name"] for t in s["tests"])
+        for sub in s["subs"]:
+            go(sub, path + ".")
+    for s in pd["suites"]:
+        go(s, "")
+    return out
